@@ -147,6 +147,17 @@ static std::string opChi2(const Toks& t) {
   size_t k = w.size();
   std::vector<size_t> cnt(k + 1, 0); // last cell: anything outside 0..k-1
   auto hit = [&](size_t i) { cnt[i < k ? i : k]++; };
+  if (kind == "pairs" || kind == "pairsw") {
+    // the pair (first, second) element of a sample with replacement of size 2: k*k cells (+ 1 for anything else)
+    std::vector<size_t> c2(k * k + 1, 0);
+    std::vector<size_t> v(k); std::iota(v.begin(), v.end(), 0);
+    for (size_t i = 0; i < N; ++i) {
+      std::vector<size_t> out(2);
+      if (kind == "pairs") RandomTools::getSample(v, out, true); else RandomTools::getSample(v, w, out, true);
+      c2[out[0] < k && out[1] < k ? out[0] * k + out[1] : k * k]++;
+    }
+    return showI(c2).substr(1);
+  }
   if (kind == "pickwc") {
     std::vector<size_t> v(k); std::iota(v.begin(), v.end(), 0);
     for (size_t i = 0; i < N; ++i) hit(RandomTools::pickOne(const_cast<const std::vector<size_t>&>(v), const_cast<const std::vector<double>&>(w)));
@@ -170,6 +181,10 @@ static std::string opChi2(const Toks& t) {
     // first element of a weighted sample without replacement of size 1
     std::vector<size_t> v(k); std::iota(v.begin(), v.end(), 0);
     for (size_t i = 0; i < N; ++i) { std::vector<size_t> out(1); RandomTools::getSample(v, w, out, false); hit(out[0]); }
+  } else if (kind == "samplewfull") {
+    // first element of a weighted sample without replacement as long as the source: still a weighted pick
+    std::vector<size_t> v(k); std::iota(v.begin(), v.end(), 0);
+    for (size_t i = 0; i < N; ++i) { std::vector<size_t> out(k); RandomTools::getSample(v, w, out, false); hit(out[0]); }
   } else if (kind == "samplewr") {
     // every element of weighted samples WITH replacement that are longer than the source (size k + 3)
     std::vector<size_t> v(k); std::iota(v.begin(), v.end(), 0);
@@ -238,6 +253,23 @@ static std::string opChi2Rc(const Toks& t) {
   std::vector<size_t> cnt(k + 2, 0);
   ContingencyTableGenerator g(r, c);
   for (size_t i = 0; i < N; ++i) { RowMatrix<size_t> tb = g.rcont2(); size_t x = tb(0, 0); cnt[x <= k ? x : k + 1]++; }
+  return showI(cnt).substr(1);
+}
+
+// cells (0,0),(0,1) of N random 2x3 tables (shape "r") or cells (0,0),(1,0) of N random 3x2 tables (shape "c"):
+// chi2rc3 <N> <r|c> a0 a1 b0 b1 b2   (a: the two margins of the short side, b: the three of the long side;
+// law: multivariate hypergeometric C(b0,x0) C(b1,x1) C(b2,a0-x0-x1) / C(N,a0)); cell index x0 * (b1+1) + x1
+static std::string opChi2Rc3(const Toks& t) {
+  size_t N = toU(t[1]); bool rowShape = t[2] == "r";
+  std::vector<size_t> a = {toU(t[3]), toU(t[4])}, b = {toU(t[5]), toU(t[6]), toU(t[7])};
+  size_t nc = (b[0] + 1) * (b[1] + 1);
+  std::vector<size_t> cnt(nc + 1, 0);
+  ContingencyTableGenerator g(rowShape ? a : b, rowShape ? b : a);
+  for (size_t i = 0; i < N; ++i) {
+    RowMatrix<size_t> tb = g.rcont2();
+    size_t x0 = tb(0, 0), x1 = rowShape ? tb(0, 1) : tb(1, 0);
+    cnt[x0 <= b[0] && x1 <= b[1] ? x0 * (b[1] + 1) + x1 : nc]++;
+  }
   return showI(cnt).substr(1);
 }
 
@@ -451,6 +483,7 @@ static std::string op(const Toks& t) {
   if (o == "chi2") return opChi2(t);
   if (o == "chi2d") return opChi2Dist(t);
   if (o == "chi2rc") return opChi2Rc(t);
+  if (o == "chi2rc3") return opChi2Rc3(t);
   if (o == "repro") return opRepro(t);
   if (o == "repro1") return opRepro1(t);
   return "bad-op";
